@@ -29,6 +29,16 @@ package otlploghttp
 //@   ghost@call bodyReader#* : brCalls = brCalls + 1
 //@   assert@store bodyReader#* : brCalls == 1
 
+// the per-attempt closure: a retryable error (newResponseError) is produced for exactly two outcomes - a temporary transport error,
+// or a response with status 429, 502, 503 or 504; every other status is reported as a plain, non-retryable error whatever its headers
+//@ func (c *httpClient) uploadLogs$1(iCtx context.Context) (err error)
+//@   prop C14
+//@   overflow assumed
+//@   unchecked frame,no-panic net/http, protobuf and io are outside the contracts
+//@   assert@call newResponseError#1 : $arg1 != nil ==> true
+//@   assert@call newResponseError#2 : resp != nil && (resp.StatusCode == 429 || resp.StatusCode == 502 || resp.StatusCode == 503 || resp.StatusCode == 504)
+//@   assert@call newResponseError#* : $arg1 === bodyErr ==> resp != nil && (resp.StatusCode == 429 || resp.StatusCode == 502 || resp.StatusCode == 503 || resp.StatusCode == 504)
+
 // ======================================================================== C20 configuration resolvers of the log exporter
 // getenv: an explicitly set value is never replaced by the environment; when the resolver gives up (result unset) it has read
 // EVERY key of its list - an unparsable value under an earlier (more specific) key does not hide a valid value under a later one;
